@@ -430,3 +430,37 @@ Proof.
   - intro n. unfold expm_coeff. rewrite skew3_scale, mpow33_scale, e33_mscale, pow1. req. unfold Rdiv. ring.
   - apply is_pseries_R. exact (rodrigues_is_expm_series u th i j Hu Hi Hj).
 Qed.
+
+(* se(3): the exponential series of the 4x4 matrix [theta S] itself (x = 1), S a unit twist *)
+Definition mscale44 (c : R) (A : M44 R) : M44 R :=
+  let '((a00,a01,a02,a03),(a10,a11,a12,a13),(a20,a21,a22,a23),(a30,a31,a32,a33)) := A in
+  ((c*a00,c*a01,c*a02,c*a03),(c*a10,c*a11,c*a12,c*a13),(c*a20,c*a21,c*a22,c*a23),(c*a30,c*a31,c*a32,c*a33)).
+Ltac d44 A := destruct A as [[[[[[a00 a01] a02] a03] [[[a10 a11] a12] a13]] [[[a20 a21] a22] a23]] [[[a30 a31] a32] a33]].
+Lemma mmul44_scale_l (c : R) (A B : M44 R) : mmul44 Rops (mscale44 c A) B = mscale44 c (mmul44 Rops A B).
+Proof. d44 A. destruct B as [[[[[[b00 b01] b02] b03] [[[b10 b11] b12] b13]] [[[b20 b21] b22] b23]] [[[b30 b31] b32] b33]]. unfold mscale44. autounfold with smlin. sm_simpl. tuple_eq ltac:(ring). Qed.
+Lemma mmul44_scale_r (c : R) (A B : M44 R) : mmul44 Rops A (mscale44 c B) = mscale44 c (mmul44 Rops A B).
+Proof. d44 A. destruct B as [[[[[[b00 b01] b02] b03] [[[b10 b11] b12] b13]] [[[b20 b21] b22] b23]] [[[b30 b31] b32] b33]]. unfold mscale44. autounfold with smlin. sm_simpl. tuple_eq ltac:(ring). Qed.
+Lemma mscale44_mscale (c d : R) (A : M44 R) : mscale44 c (mscale44 d A) = mscale44 (c * d) A.
+Proof. d44 A. unfold mscale44. tuple_eq ltac:(ring). Qed.
+Lemma mscale44_one (A : M44 R) : mscale44 1 A = A.
+Proof. d44 A. unfold mscale44. tuple_eq ltac:(ring). Qed.
+Lemma e44_mscale (c : R) (A : M44 R) i j : e44 (mscale44 c A) i j = c * e44 A i j.
+Proof. d44 A. unfold mscale44. destruct i as [|[|[|i]]]; destruct j as [|[|[|j]]]; cbn [e44]; ring. Qed.
+Lemma mpow44_scale (c : R) (A : M44 R) k : mpow44 (mscale44 c A) k = mscale44 (c ^ k) (mpow44 A k).
+Proof.
+  induction k as [|k IH]; cbn [mpow44 pow]; [symmetry; apply mscale44_one|].
+  rewrite IH, mmul44_scale_l, mmul44_scale_r, mscale44_mscale. reflexivity.
+Qed.
+Definition vscale6r (c : R) (S : V6 R) : V6 R := let '(a0,a1,a2,a3,a4,a5) := S in (c*a0, c*a1, c*a2, c*a3, c*a4, c*a5).
+Lemma se3_hat_scale (c : R) (S : V6 R) : se3_hat (vscale6r c S) = mscale44 c (se3_hat S).
+Proof. destruct S as [[[[[v0 v1] v2] w0] w1] w2]. unfold se3_hat, vscale6r, mscale44. tuple_eq ltac:(ring). Qed.
+
+Theorem trexp_unit_is_exp_of_scaled_twist (Kt : thr) (v0 v1 v2 w0 w1 w2 th : R) (i j : nat) :
+  thr_ok Kt -> normsq3 Rops (w0,w1,w2) = 1 -> (i < 4)%nat -> (j < 4)%nat ->
+  is_series (fun k => e44 (mpow44 (se3_hat (vscale6r th (v0,v1,v2,w0,w1,w2))) k) i j / INR (fact k))
+            (e44 (trexp_unit Rops Kt (v0,v1,v2,w0,w1,w2) th) i j).
+Proof.
+  intros HK Hw Hi Hj.
+  pose proof (trexp_unit_is_expm_series Kt v0 v1 v2 w0 w1 w2 th HK Hw i j Hi Hj) as H. apply is_pseries_R in H.
+  apply is_series_ext with (2 := H). intro n. unfold expm_coeff44. rewrite se3_hat_scale, mpow44_scale, e44_mscale. req. unfold Rdiv. ring.
+Qed.
